@@ -119,6 +119,7 @@ func scC12Fault(r *Run) {
 		return f
 	}
 	w := newCliWorld(r, o, o.primaryURL(), fate)
+	w.onTracksDelay = time.Duration(Pick(T, 0, 0, 30, 300, 2000)) * time.Millisecond
 	if kind == "ontracks" {
 		w.onTracksErr = errOnTracks
 		r.FaultConf("ontracks")
@@ -181,6 +182,7 @@ func scC12Close(r *Run) {
 		return f
 	}
 	w := newCliWorld(r, o, o.primaryURL(), fate)
+	w.onTracksDelay = time.Duration(Pick(T, 0, 0, 30, 300, 2000)) * time.Millisecond
 	w.limit = 4 * time.Minute
 	closes := 0
 	w.onEvent = func(ev int) {
